@@ -223,6 +223,16 @@ class Operation(ABC):
                 if backed_grad.dtype != var.dtype:
                     backed_grad = backed_grad.astype(var.dtype, copy=False)
 
+                if backed_grad.strides != var.data.strides and var._base is None:
+                    # The gradient of a tensor that owns its memory must have the memory
+                    # layout of its data: views of the tensor obtain their gradients by
+                    # replaying their view-ops on this array, which yields views of it
+                    # only if it is laid out like the data (e.g. reshaping an F-ordered
+                    # array copies).
+                    tmp = np.empty_like(var.data)
+                    tmp[...] = backed_grad
+                    backed_grad = tmp
+
                 var._grad = backed_grad
             else:
                 var._grad += backed_grad
